@@ -1266,6 +1266,84 @@ func genParams(r *prng.R) ParamsD {
 	return p
 }
 
+// genPoolCase targets the scheduling-constraint boundaries: runtimes whose roles
+// combine MaxNodes, MinPoolSize (and ValidatorSet), entities with node counts
+// around the per-entity limit, and MinPoolSize placed relative to the raw and
+// the de-duplicated pool sizes (raw >= min > deduped >= group size; deduped ==
+// min; deduped == group size; ...).  All nodes are otherwise eligible.
+func genPoolCase(r *prng.R) Case {
+	c := Case{Thresholds: []string{"100", "200", "300", "50", "400", "500", "600"}}
+	e0 := uint64(r.Range(1, 6))
+	nEnt := r.Range(2, 4)
+	ep := EpochD{Epoch: e0, Entropy: hex.EncodeToString(r.Bytes(32)), Params: ParamsD{Min: 1, Max: r.Range(1, 4), Per: 1}, FV261: true, Changed: true}
+	if r.Chance(30) {
+		ep.VRF = &VrfD{Can: true, Weak: r.Chance(20)}
+	}
+	lim := r.Range(1, 2)
+	ver := versions[1]
+	counts := make([]int, nEnt)
+	for i := 0; i < nEnt; i++ {
+		c.EntKeys = append(c.EntKeys, rkey(r))
+		ep.Ents = append(ep.Ents, EntD{Escrow: fmt.Sprint(1000 * (1 + r.Intn(3)))})
+		// one validator node per entity (so that ValidatorSet splits the entities when MaxValidators is small)
+		ep.Nodes = append(ep.Nodes, NodeD{Key: rkey(r), Cons: rkey(r), Ent: i, Roles: 8, Exp: e0 + 2})
+		counts[i] = []int{0, lim - 1, lim, lim, lim + 1, lim + 2}[r.Intn(6)]
+	}
+	if r.Chance(50) {
+		counts[0] = lim + r.Range(1, 2) // one entity surely above the limit
+	}
+	raw, ded := 0, 0
+	for i, k := range counts {
+		for j := 0; j < k; j++ {
+			ep.Nodes = append(ep.Nodes, NodeD{Key: rkey(r), Cons: rkey(r), Ent: i, Roles: 1, Exp: e0 + 2, NoPi: r.Chance(8),
+				Rts: []NodeRt{{Rt: 0, Ver: ver}}})
+		}
+		raw += k
+		if k > lim {
+			ded += lim
+		} else {
+			ded += k
+		}
+	}
+	g := []int{1, 2, 2, 3}[r.Intn(4)]
+	if r.Chance(40) && ded >= 1 {
+		g = ded // group size == de-duplicated pool
+	}
+	mkCs := func() *CsD {
+		cs := &CsD{VSet: r.Chance(20)}
+		if r.Chance(85) {
+			l := lim
+			cs.Max = &l
+		}
+		cands := []int{ded, ded, ded + 1, raw, g, ded - 1, raw + 1}
+		m := cands[r.Intn(len(cands))]
+		if m < 0 {
+			m = 0
+		}
+		if r.Chance(85) {
+			cs.Min = &m
+		}
+		return cs
+	}
+	c.Rts = append(c.Rts, RtD{ID: rtKey(r, true), Compute: true, G: g, B: []int{0, 0, 1, 2}[r.Intn(4)],
+		Deps: []DepD{{Ver: ver, From: 0}}, CW: mkCs(), CB: mkCs()})
+	c.Epochs = append(c.Epochs, ep)
+	if r.Chance(40) {
+		// next epoch: one compute node leaves
+		nx := ep
+		nx.Epoch, nx.Entropy = ep.Epoch+1, hex.EncodeToString(r.Bytes(32))
+		nx.Nodes = append([]NodeD{}, ep.Nodes...)
+		for k := len(nx.Nodes) - 1; k >= 0; k-- {
+			if nx.Nodes[k].Roles == 1 {
+				nx.Nodes = append(nx.Nodes[:k], nx.Nodes[k+1:]...)
+				break
+			}
+		}
+		c.Epochs = append(c.Epochs, nx)
+	}
+	return c
+}
+
 func genCase(r *prng.R) Case {
 	c := Case{Thresholds: []string{"100", "200", "300", "50", "400", "500", "600"}}
 	if r.Chance(15) {
@@ -1595,7 +1673,11 @@ func main() {
 		cases = append(cases, boundaryCases()...)
 		r := prng.New(*seed)
 		for i := 0; i < *n; i++ {
-			cases = append(cases, genCase(r.Fork()))
+			if i%4 == 3 {
+				cases = append(cases, genPoolCase(r.Fork()))
+			} else {
+				cases = append(cases, genCase(r.Fork()))
+			}
 		}
 	}
 	seen := map[string]bool{}
@@ -1734,7 +1816,44 @@ func main() {
 					if tieB {
 						sum.Count("misc", "stake-tie-at-validator-boundary")
 					}
-					for _, cm := range o.Comms {
+					for ri, cm := range o.Comms {
+						rt := &c.Rts[ri]
+						if cs := rt.CW; cs != nil && cs.Max != nil && cs.Min != nil && *cs.Max > 0 && rt.Compute && !rt.Suspended {
+							ev, _ := e.effective()
+							vw := &view{c: c, e: &ev}
+							rep := map[int]bool{}
+							for _, x := range o.Vals {
+								rep[vw.entIdx(x.Ent)] = true
+							}
+							per := map[int]int{}
+							rawN := 0
+							for k := range ev.Nodes {
+								nd := &ev.Nodes[k]
+								if vw.live(nd) && vw.suitable(nd, ri) && vw.stakeOK(nd.Ent) && (!cs.VSet || rep[nd.Ent]) {
+									per[nd.Ent]++
+									rawN++
+								}
+							}
+							dd := 0
+							for _, k := range per {
+								if k > *cs.Max {
+									k = *cs.Max
+								}
+								dd += k
+							}
+							switch {
+							case rawN >= *cs.Min && *cs.Min > dd && dd >= rt.G:
+								sum.Count("worker-pool", "raw>=min>deduped>=group")
+							case dd == *cs.Min:
+								sum.Count("worker-pool", "deduped==min")
+							case dd == rt.G:
+								sum.Count("worker-pool", "deduped==group")
+							case dd < *cs.Min:
+								sum.Count("worker-pool", "deduped<min")
+							default:
+								sum.Count("worker-pool", "deduped>min")
+							}
+						}
 						if cm.Present {
 							sum.Count("committee", fmt.Sprintf("elected-%d", len(cm.Members)))
 						} else {
